@@ -81,7 +81,26 @@ func Judge(cs Case, res Result) []Failure {
 		add("C04", "panic", key, "negotiation panicked: %s", res.Err)
 		return out
 	case "STALL":
-		add("C04", "stall", "stall", "session establishment did not return")
+		// a call may stay blocked for as long as its peer is silent or does not read — but not
+		// once its context is done
+		fs, _ := parseFault(cs.Fault)
+		blocked, wr := false, false
+		for _, e := range res.Events {
+			if e.Res == "blocked" {
+				blocked, wr = true, e.Kind != "R"
+			}
+		}
+		cancelled := (fs.cancel && len(res.Events) >= fs.cancelAt) || (fs.cancelB && blocked)
+		switch {
+		case blocked && !cancelled:
+			// legitimately blocked: nobody cancelled
+		case blocked && wr:
+			add("C04", "stall", "blocked-write-outlives-cancel", "the context was cancelled while session establishment was blocked in a write; it did not return")
+		case blocked:
+			add("C04", "stall", "blocked-read-outlives-cancel", "the context was cancelled while session establishment was blocked in a read; it did not return")
+		default:
+			add("C04", "stall", "stall", "session establishment did not return")
+		}
 		return out
 	}
 
@@ -297,7 +316,7 @@ func Judge(cs Case, res Result) []Failure {
 		if faulty < 0 {
 			k := ""
 			switch {
-			case (e.Kind == "R" || strings.HasPrefix(e.Kind, "W")) && e.Res != "ok" && e.Res != "got":
+			case (e.Kind == "R" || strings.HasPrefix(e.Kind, "W")) && e.Res != "ok" && e.Res != "got" && e.Res != "blocked":
 				k = e.Kind[:1] + ":" + e.Res
 			case e.Kind == "L" && cfg[e.F].ListErr:
 				k = "List"
@@ -324,8 +343,8 @@ func Judge(cs Case, res Result) []Failure {
 	if selRefuse && !failed {
 		add("C01", "recv-refuse", "not-refused:"+selDesc, "a selection that had to be refused did not end the negotiation with an error")
 	}
-	if fs, err := parseFault(cs.Fault); err == nil && fs.cancel && len(res.Events) >= fs.k && cs.St0&Ready == 0 && !failed {
-		add("C04", "cancel", "nil-after-cancel", "the context was cancelled after %d events, before negotiation had completed, but session establishment returned %s", fs.k, res.Outcome)
+	if fs, err := parseFault(cs.Fault); err == nil && ((fs.cancel && len(res.Events) >= fs.cancelAt) || (fs.cancelB && anyBlocked(res))) && cs.St0&Ready == 0 && !failed {
+		add("C04", "cancel", "nil-after-cancel", "the context was cancelled (%s) before negotiation had completed, but session establishment returned %s", cs.Fault, res.Outcome)
 	}
 	if faulty >= 0 && !failed {
 		add("C04", "fail-closed", "swallowed:"+faultyKind, "step %d (%s) failed but session establishment returned %s (state %d)", faulty, res.Events[faulty].String(cfg), res.Outcome, res.State)
@@ -401,4 +420,13 @@ func panicKey(s string) string {
 		}
 		return r
 	}, s)
+}
+
+func anyBlocked(res Result) bool {
+	for _, e := range res.Events {
+		if e.Res == "blocked" {
+			return true
+		}
+	}
+	return false
 }
